@@ -56,6 +56,14 @@ func IntPoly(v ssa.Value, leaf func(ssa.Value) (*Poly, bool)) (*Poly, bool) {
 			}
 			return a.Neg(), true
 		}
+	case *ssa.Phi:
+		// the absolute value written out:  v := x; if v < 0 { v = -v }
+		if inner, ok := inlineAbs(x); ok {
+			in, ok := IntPoly(inner, leaf)
+			if ok {
+				return PSym("abs(" + canonAbs(in) + ")"), true
+			}
+		}
 	case *ssa.Call:
 		if b, ok := x.Call.Value.(*ssa.Builtin); ok && b.Name() == "len" && len(x.Call.Args) == 1 {
 			if n := valueName(x.Call.Args[0]); n != "" {
@@ -137,4 +145,42 @@ func SliceBase(v ssa.Value, leaf func(ssa.Value) (*Poly, bool)) (base ssa.Value,
 		v = s.X
 	}
 	return v, off, true
+}
+
+// inlineAbs recognises phi(x, -x) where the negated edge is taken exactly when x < 0 (or x <= 0): |x|.
+func inlineAbs(ph *ssa.Phi) (ssa.Value, bool) {
+	if len(ph.Edges) != 2 {
+		return nil, false
+	}
+	for i := 0; i < 2; i++ {
+		neg, isNeg := ph.Edges[i].(*ssa.UnOp)
+		if !isNeg || neg.Op != token.SUB || neg.X != ph.Edges[1-i] {
+			continue
+		}
+		x := neg.X
+		negBlk := ph.Block().Preds[i]
+		// negBlk is entered only from a test  x < 0  (true edge)
+		if len(negBlk.Preds) != 1 {
+			continue
+		}
+		tb := negBlk.Preds[0]
+		iff, ok := tb.Instrs[len(tb.Instrs)-1].(*ssa.If)
+		if !ok || len(tb.Succs) != 2 {
+			continue
+		}
+		cmp, ok := iff.Cond.(*ssa.BinOp)
+		if !ok {
+			continue
+		}
+		zero := func(v ssa.Value) bool { k, ok := ConstInt(v); return ok && k == 0 }
+		onTrue := tb.Succs[0] == negBlk
+		switch {
+		case (cmp.Op == token.LSS || cmp.Op == token.LEQ) && cmp.X == x && zero(cmp.Y) && onTrue,
+			(cmp.Op == token.GTR || cmp.Op == token.GEQ) && cmp.Y == x && zero(cmp.X) && onTrue,
+			(cmp.Op == token.GEQ || cmp.Op == token.GTR) && cmp.X == x && zero(cmp.Y) && !onTrue,
+			(cmp.Op == token.LEQ || cmp.Op == token.LSS) && cmp.Y == x && zero(cmp.X) && !onTrue:
+			return x, true
+		}
+	}
+	return nil, false
 }
